@@ -146,6 +146,55 @@ fn c03_exhaustive(thorough: bool, out: &mut Sink, slot: &mut usize) {
     ));
 }
 
+/// Vocabularies that are NOT closed under merging: entries that no sequence of lowest-rank-first merges
+/// rebuilds (the whole-piece shortcut is the only way to get them), with every entry itself — in
+/// particular the longest one — as a piece, alone, doubled, behind a long inert run and with an
+/// end-of-word suffix.
+fn c03_orphans(rng: &mut Rng, thorough: bool, out: &mut Sink, slot: &mut usize) {
+    let n = if thorough { 3000 } else { 300 };
+    let pool: Vec<String> = all_strings(&['a', 'b', 'c'], 7).into_iter().filter(|s| s.chars().count() >= 2).collect();
+    for v in 0..n {
+        let k = rng.range(1, 4);
+        let mut ranked: Vec<String> = Vec::new();
+        for _ in 0..k {
+            let t = if rng.chance(1, 3) { std::iter::repeat('a').take(rng.range(2, 7)).collect() } else { rng.pick(&pool).clone() };
+            if !ranked.contains(&t) {
+                ranked.push(t);
+            }
+        }
+        let eow = if v % 4 == 3 { Some("</w>") } else { None };
+        let mut tokens = ranked.clone();
+        if let Some(e) = eow {
+            // suffixed copies of some entries, so that "entry + suffix" is itself an entry of maximal length
+            for t in ranked.iter().take(2) {
+                tokens.push(format!("{}{}", t, e));
+            }
+            for l in ["a", "b", "c", "z"] {
+                tokens.push(format!("{}{}", l, e));
+            }
+        }
+        tokens.extend(["a", "b", "c", "z"].iter().map(|x| x.to_string()));
+        let def = bpe_def_from(&tokens, v % 2 == 1, eow, vec![], false);
+        let mut lines = Vec::new();
+        let tk = load(*slot, "c03-orphans", def, &mut lines);
+        *slot += 1;
+        let mut pieces: Vec<String> = Vec::new();
+        for t in &ranked {
+            pieces.push(t.clone());
+            pieces.push(format!("{}{}", t, t));
+            pieces.push(pad_long('z', t, 193));
+            pieces.push(format!("a{}", t));
+        }
+        for _ in 0..8 {
+            pieces.push(random_string(rng, &['a', 'b', 'c'], 9));
+        }
+        pieces.retain(|p| !p.is_empty());
+        piece_lines(&tk, "BPE", &pieces, &mut lines, out);
+        out.group(lines);
+        out.count("c03_orphan_vocabularies");
+    }
+}
+
 fn random_piece(rng: &mut Rng, alphabet: &[char], long: bool) -> String {
     let n = if long { rng.range(150, 600) } else { rng.range(1, 24) };
     // biased towards repeats so that merges apply
@@ -216,7 +265,18 @@ fn random_defs(prop: &str, rng: &mut Rng, thorough: bool, out: &mut Sink, slot: 
                 def.model.vocab_mut().push(Token { id, bytes: p.as_bytes().to_vec() });
             }
         }
-        let def = strip(&def);
+        let mut def = strip(&def);
+        // hand-built definitions need not list their specials in the canonical order: the unknown token
+        // is whichever special has the unknown kind, wherever it stands
+        if rng.chance(1, 3) {
+            let ctl = SpecialToken { id: 6_000_000, bytes: b"\x01<ctl>\x01".to_vec(), kind: SpecialTokenKind::Control, ident: None, score: 0.0, extract: false };
+            let pri = SpecialToken { id: 6_000_001, bytes: b"\x01<pri>\x01".to_vec(), kind: SpecialTokenKind::Priority, ident: None, score: 0.0, extract: false };
+            def.specials.insert(0, ctl);
+            if rng.chance(1, 2) {
+                def.specials.insert(0, pri);
+            }
+            out.count("defs_unknown_special_not_first");
+        }
         let mut lines = Vec::new();
         let tk = load(*slot, "generated", def, &mut lines);
         *slot += 1;
@@ -288,6 +348,43 @@ fn exhaustive_words(prop: &str, rng: &mut Rng, thorough: bool, out: &mut Sink, s
         out.group(lines);
     }
     out.exhaustive.push(format!("{}: all pieces up to length {} over {{a,b}} (and up to {} over {{a,é,語}}) x {} generated vocabularies", prop, lmax, lmax.min(6), nvoc));
+}
+
+/// C04: vocabularies that are NOT built from their single characters — random sets of strings, so that
+/// entries span positions where no entry ends ("a", "c", "abc" without "b", "ab", "bc") — with every
+/// piece up to a small length. An unknown id may only stand where no segmentation covers the character.
+fn c04_sparse(rng: &mut Rng, thorough: bool, out: &mut Sink, slot: &mut usize) {
+    let nvoc = if thorough { 600 } else { 60 };
+    for v in 0..nvoc {
+        let alphabet: Vec<char> = match v % 3 {
+            0 => vec!['a', 'b', 'c'],
+            1 => vec!['a', 'é'],
+            _ => vec!['a', 'b'],
+        };
+        let pool: Vec<String> = all_strings(&alphabet, 4).into_iter().filter(|s| !s.is_empty()).collect();
+        let k = rng.range(2, 7);
+        let mut toks: Vec<String> = Vec::new();
+        for _ in 0..k {
+            let t = rng.pick(&pool).clone();
+            if !toks.contains(&t) {
+                toks.push(t);
+            }
+        }
+        let vocab: Vocab = toks.iter().enumerate().map(|(i, t)| Token { id: 20 + i as u32 * 2, bytes: t.as_bytes().to_vec() }).collect();
+        let scores: Scores = toks.iter().map(|_| if v % 2 == 0 { -(rng.range(0, 3) as f32) } else { -(rng.range(1, 4000) as f32) / 256.0 }).collect();
+        let mut config = Configuration::default();
+        config.fallback = if v % 5 == 4 { vec![] } else { vec![Fallback::Unknown] };
+        let specials = vec![SpecialToken { id: 5_000_000, bytes: b"\x01<unk>\x01".to_vec(), kind: SpecialTokenKind::Unknown, ident: None, score: 0.0, extract: false }];
+        let def = Definition { meta: Metadata::default(), model: Model::Unigram { vocab, scores }, specials, config };
+        let mut lines = Vec::new();
+        let tk = load(*slot, "c04-sparse", def, &mut lines);
+        *slot += 1;
+        let lm = if alphabet.len() == 3 { 5 } else { 7 };
+        let pieces: Vec<String> = all_strings(&alphabet, lm).into_iter().filter(|s| !s.is_empty()).collect();
+        piece_lines(&tk, "UNI", &pieces, &mut lines, out);
+        out.group(lines);
+        out.count("c04_sparse_vocabularies");
+    }
 }
 
 fn shipped(prop: &str, rng: &mut Rng, thorough: bool, out: &mut Sink, slot: &mut usize) {
@@ -413,11 +510,15 @@ pub fn gen(prop: &str, rng: &mut Rng, thorough: bool, out: &mut Sink) {
     match prop {
         "C03" => {
             c03_exhaustive(thorough, out, &mut slot);
+            c03_orphans(rng, thorough, out, &mut slot);
             random_defs(prop, rng, thorough, out, &mut slot);
             shipped(prop, rng, thorough, out, &mut slot);
         }
         "C04" | "C05" => {
             exhaustive_words(prop, rng, thorough, out, &mut slot);
+            if prop == "C04" {
+                c04_sparse(rng, thorough, out, &mut slot);
+            }
             random_defs(prop, rng, thorough, out, &mut slot);
             shipped(prop, rng, thorough, out, &mut slot);
         }
